@@ -39,7 +39,8 @@ LEVEL_NOTE = ("the frequency filter is an abstract linear operator in the theore
               "covered by the model and the correspondence run, the dipole theorems assume the exact frame that "
               "C08_dipole_frame_orthonormal proves for every DipoleAntenna; outside the claim and not generated: an empty "
               "component sequence (receive([]) stores the integer 0), zero axis / orientation vectors (Antenna accepts them "
-              "silently, DipoleAntenna never returns), float32 vectors (pyrex normalises in float32); floating-point "
+              "silently, DipoleAntenna never returns), float32 vectors (pyrex normalises in float32), vectors whose squared "
+              "length leaves the double range (|v| < 1e-154 or > 1e154: np.linalg.norm under/overflows, floating-point range); floating-point "
               "rounding is not "
               "modelled (tolerance run: 1e-9 relative, FFT-based values 1e-9 of the peak); scipy.signal.butter / freqs "
               "are modelled by the rational function they define; constants (speed of light, isclose tolerance 1e-8) "
@@ -294,14 +295,21 @@ def gvec(rng, scale=1.0):
             return [float(c * scale) for c in v]
 
 
+def len_scale(rng):
+    """length of a vector of which only the direction may matter (antenna axes, arrival direction, polarisation - e.g.
+    a field amplitude of a few nV/m handed over as the polarisation): mostly O(1), sometimes tiny or huge.  Kept within
+    1e-140 … 1e140: beyond about 1e+-154 the squares inside numpy's norm leave the double range (outside the claim)."""
+    return rng.choice([1.0] * 7 + [1e-8, 1e-9, 1e-12, 1e-100, 1e-140, 1e8, 1e100, 1e140])
+
+
 def rand_spec(run, kind):
     rng = run.rng
-    z = np.array(gvec(rng, rng.choice([1.0, 0.3, 7.0])))
+    z = np.array(gvec(rng, rng.choice([1.0, 0.3, 7.0]) * len_scale(rng)))
     while True:
         x = np.cross(z, np.array(gvec(rng)))
         if np.linalg.norm(x) > 0.2 * np.linalg.norm(z):
             break
-    x = x / np.linalg.norm(x) * rng.choice([1.0, 2.5, 0.4])
+    x = x / np.linalg.norm(x) * rng.choice([1.0, 2.5, 0.4]) * len_scale(rng)
     spec = {"kind": kind, "pos": [rng.uniform(-100, 100), rng.uniform(-100, 100), rng.uniform(-300, -10)],
             "z": [float(c) for c in z], "form": rng.choice(FORMS)}
     if kind in ("dip", "sysdip"):
@@ -379,12 +387,12 @@ def input_structure(sig):
 
 
 def perp_pair(rng):
-    z = np.array(gvec(rng, rng.choice([1.0, 0.3, 7.0])))
+    z = np.array(gvec(rng, rng.choice([1.0, 0.3, 7.0]) * len_scale(rng)))
     while True:
         x = np.cross(z, np.array(gvec(rng)))
         if np.linalg.norm(x) > 0.2 * np.linalg.norm(z):
             break
-    x = x / np.linalg.norm(x) * rng.choice([1.0, 2.5, 0.4])
+    x = x / np.linalg.norm(x) * rng.choice([1.0, 2.5, 0.4]) * len_scale(rng)
     return [float(c) for c in z], [float(c) for c in x]
 
 
@@ -442,17 +450,17 @@ def _rand_use(run, n=None, dt=None):
     sd = rand_signal(run, n, dt)
     nn = len(sd["vals"])
     op = rng.choice(["respond", "respond", "receive1", "receive"])
-    use = {"op": op, "signal": sd, "direction": None if rng.random() < 0.1 else gvec(rng, rng.choice([1.0, 20.0])),
+    use = {"op": op, "signal": sd, "direction": None if rng.random() < 0.1 else gvec(rng, rng.choice([1.0, 20.0]) * len_scale(rng)),
            "force_real": rng.random() < 0.6, "form": rng.choice(FORMS), "seqform": rng.choice(["list", "tuple"])}
     special = rng.choice(["pyint", "intarray"]) if rng.random() < 0.15 else None
     if op == "receive":
         use["components"] = [{"vals": [rng.gauss(0, 1) for _ in range(nn)],
                               "vt": rng.choice(["field", "voltage", "field", "voltage", "undefined", "power"]) if rng.random() < 0.25
-                              else rng.choice(["field", "voltage"]), "pol": gvec(rng)}
+                              else rng.choice(["field", "voltage"]), "pol": gvec(rng, len_scale(rng))}
                              for _ in range(rng.choice([2, 2, 3]))]
     else:
         use["vt"] = rng.choice(["field", "field", "voltage", "voltage", "voltage", "undefined"])
-        use["polarization"] = None if rng.random() < 0.1 else gvec(rng)
+        use["polarization"] = None if rng.random() < 0.1 else gvec(rng, len_scale(rng))
     if special:                  # integer-valued / single-precision vectors in the matching container forms
         use["form"] = special
 
@@ -669,8 +677,10 @@ def filter_toks(spec, inner, sd, force_real):
     from pyrex.signals import Signal
     n = len(sd["vals"])
     if spec["kind"] in ("dip", "sysdip"):
-        b, a = inner.filter_coeffs
-        return "B %s %s %s %d" % (fw.fl(np.real(b)), fw.fl(np.real(a)), fw.fl([sd["dt"]]), 1 if force_real else 0)
+        # coefficients of the band-pass of the antenna's OWN band, recomputed from the spec (not read off the object)
+        w1 = 2 * np.pi * (spec["cf"] - spec["bw"] / 2)
+        w2 = 2 * np.pi * (spec["cf"] + spec["bw"] / 2)
+        return "B %s %s %s %d" % (fw.fl([w2 - w1, 0.0]), fw.fl([1.0, w2 - w1, w1 * w2]), fw.fl([sd["dt"]]), 1 if force_real else 0)
     freqs = scipy.fft.fftfreq(n=2 * n, d=sd["dt"])
     h = Signal._get_filter_response(freqs, independent_response(spec), force_real)
     flat = []
@@ -702,7 +712,10 @@ def impl_respond(outer, sd, vt, direction, pol, force_real):
     return [float(v) for v in np.real(out.values)]
 
 
-EXCLUDED_REGIONS = ["empty component sequence in receive (no received signal; the model rejects it)",
+EXCLUDED_REGIONS = ["vectors shorter than about 1e-154 or longer than about 1e154: the squares inside np.linalg.norm leave the double "
+                    "range, normalize returns the vector unchanged (norm 0.0) resp. the zero vector (norm inf) and the response "
+                    "silently becomes ~0 - floating-point range, outside the claim, not generated and not asserted",
+                    "empty component sequence in receive (no received signal; the model rejects it)",
                     "zero axis / orientation vectors (not an orientation)", "float32 vectors (float32-accurate normalisation)",
                     "complex gains in the correspondence run (search only; K21)"]
 
@@ -734,6 +747,60 @@ def correspondence(run):
             return None
         return fn
 
+    def cmp_dipole(expected):
+        """axes, factor, efficiency, band to 1e-9 (absolute 1e-12); the five Butterworth coefficients to 1e-9 RELATIVE
+        each (they span 1 … 1e19, an absolute tolerance would hide a wrong band)"""
+        head_fn = cmp_list(expected[:10], 1e-9, 1e-12)
+
+        def fn(reply):
+            toks = reply.split()
+            if reply in ("err", "bad-op") or len(toks) != 15:
+                return "model=%s" % reply[:60]
+            bad = head_fn(" ".join(toks[:10]))
+            if bad:
+                return bad
+            g = fw.unfl(toks[10:])
+            e = expected[10:]
+            if not all(abs(x - y) <= 1e-9 * max(abs(x), abs(y)) for x, y in zip(g, e)):
+                return "butterworth coefficients model=%s impl=%s" % (g, e)
+            return None
+        return fn
+
+    # --- several dipoles alive at once whose bands lie closer than a MHz: each keeps the filter of its own band
+    for gi in range(run.scale(8, 60)):
+        base = rand_spec(run, "dip")
+        base["cf"], base["bw"] = rng.choice([(300e6, 20e6), (500e6, 500e6), (rng.uniform(200e6, 600e6), rng.uniform(20e6, 150e6))])
+        group = [base]
+        for _ in range(rng.choice([1, 2])):
+            nb = rand_spec(run, rng.choice(["dip", "sysdip"]))
+            nb["cf"] = base["cf"] + rng.choice([-1, 1]) * rng.choice([0.05e6, 0.1e6, 0.3e6, 0.4e6, 0.9e6])
+            nb["bw"] = base["bw"] + rng.choice([0.0, 0.2e6, -0.2e6])
+            group.append(nb)
+        rng.shuffle(group)
+        objs = [build(sp) for sp in group]
+        run.count("neighbouring_band_groups")
+        for k in rng.sample(range(len(group)), len(group)):
+            sp, (o_, i_) = group[k], objs[k]
+            b, a = i_.filter_coeffs
+            exp = (list(map(float, i_.z_axis)) + list(map(float, i_.x_axis))
+                   + [float(i_.antenna_factor), float(i_.efficiency), float(i_.freq_range[0]), float(i_.freq_range[1])]
+                   + [float(v) for v in np.real(b)] + [float(v) for v in np.real(a)])
+            add("dipole | " + ant_toks(sp, i_), ("neighbours", gi, k, "dipole"), cmp_dipole(exp))
+            use = rand_use(run)
+            use.update(op="respond", vt="field", direction=gvec(rng), polarization=gvec(rng), form="array")
+            use.pop("components", None)
+            got = run_use(o_, i_, use)
+            sc = use_scale(sp, use, i_)
+
+            def fnn(reply, got=got, sc=sc):
+                if isinstance(got, str) or reply in ("err", "bad-op"):
+                    return "model=%s impl=%s" % (reply[:40], str(got)[:40])
+                g = fw.unfl(reply.split())
+                if len(g) != len(got) or not all(abs(x - y) <= 1e-9 * sc for x, y in zip(g, got)):
+                    return "model=%s impl=%s" % (g[:4], got[:4])
+                return None
+            add(use_request(sp, i_, use), ("neighbours", gi, k, "respond"), fnn)
+
     for ci in range(ncases):
         kind = kinds[ci % len(kinds)]
         spec = rand_spec(run, kind)
@@ -748,7 +815,7 @@ def correspondence(run):
             exp = (list(map(float, inner.z_axis)) + list(map(float, inner.x_axis))
                    + [float(inner.antenna_factor), float(inner.efficiency), float(inner.freq_range[0]),
                       float(inner.freq_range[1])] + [float(v) for v in np.real(b)] + [float(v) for v in np.real(a)])
-            add("dipole | " + ant_toks(spec, inner), (key, "dipole"), cmp_list(exp, 1e-9, 1e-12),
+            add("dipole | " + ant_toks(spec, inner), (key, "dipole"), cmp_dipole(exp),
                 sample={"op": "dipole", "spec": spec, "impl": exp[:8]})
             fs = [rng.uniform(0, 2e9) for _ in range(6)] + [0.0, spec["cf"]]
             h = inner.frequency_response(np.array(fs))
@@ -1027,6 +1094,10 @@ def oracle(kind, inp):
             return oracle_zerogain(inp)
         if kind == "cgain":
             return oracle_cgain(inp)
+        if kind == "scale":
+            return oracle_scale(inp)
+        if kind == "neighbours":
+            return oracle_neighbours(inp)
         return oracle_plain(kind, inp)
     except Exception as e:     # noqa: BLE001
         import traceback
@@ -1102,6 +1173,69 @@ def oracle_reorient(inp):
             return ([ri, r1 if isinstance(r1, str) else r1[:4]], [ri, r0 if isinstance(r0, str) else r0[:4]],
                     "response changes when the axes (through set_orientation on the same object), the direction and the "
                     "polarisation are rotated together")
+    return None
+
+
+def oracle_scale(inp):
+    """only the DIRECTION of the axes, the arrival direction and the polarisation vectors matters: the answer for
+    vectors of tiny or huge length equals the answer for the unit vectors of the same directions"""
+    spec, use = inp["spec"], inp["use"]
+
+    def unit_list(v):
+        return None if v is None else [float(c) for c in _unit(v)]
+    spec1 = dict(spec, z=unit_list(spec["z"]))
+    if "x" in spec:
+        spec1["x"] = unit_list(spec["x"])
+    use1 = dict(use, direction=unit_list(use["direction"]))
+    if "polarization" in use:
+        use1["polarization"] = unit_list(use["polarization"])
+    if "components" in use:
+        use1["components"] = [dict(c, pol=unit_list(c["pol"])) for c in use["components"]]
+    o, i = build(spec)
+    got = run_use(o, i, use)
+    o1, i1 = build(spec1)
+    ref = run_use(o1, i1, use1)
+    fo, fi = build(spec1)
+    sc = use_scale(spec1, use1, fi)
+    if not _close(got, ref, 1e-9 * sc):
+        return (got if isinstance(got, str) else got[:4], ref if isinstance(ref, str) else ref[:4],
+                "the %s answer for axes / direction / polarisation of lengths %s differs from the answer for the unit "
+                "vectors of the same directions" % (use["op"], inp["lengths"]))
+    want = expected_use(spec1, use1, fi)
+    if not _close(ref, want, 1e-8 * sc):
+        return (ref if isinstance(ref, str) else ref[:4], want if isinstance(want, str) else want[:4],
+                "the %s answer for unit vectors is not filter x gains x efficiency (/ factor)" % use["op"])
+    return None
+
+
+def oracle_neighbours(inp):
+    """several DipoleAntenna objects in one process whose pass bands lie closer than a MHz, built in the given order:
+    each one's frequency response is the first-order Butterworth band-pass of ITS OWN band (|H| = 1/sqrt 2 at its own
+    -3 dB edges, the independent formula elsewhere) and each filters like the antenna built alone"""
+    specs = inp["antennas"]
+    built = [build(sp) for sp in specs]            # all alive at once, in this order
+    use = inp["use"]
+    for k in inp["check_order"]:
+        sp = specs[k]
+        outer, inner = built[k]
+        fl, fh = sp["cf"] - sp["bw"] / 2, sp["cf"] + sp["bw"] / 2
+        h = np.asarray(inner.frequency_response(np.array([fl, fh])))
+        if np.max(np.abs(np.abs(h) - 1 / math.sqrt(2))) > 1e-6:
+            return ([k, [float(abs(x)) for x in h]], [k, [1 / math.sqrt(2)] * 2],
+                    "antenna %d of %d (band %.4f-%.4f MHz, neighbours %s MHz): |H| at its own -3 dB edges is not 1/sqrt(2)"
+                    % (k, len(specs), fl / 1e6, fh / 1e6, [round((s_["cf"] - s_["bw"] / 2) / 1e6, 4) for s_ in specs]))
+        fs = np.array(inp["freqs"])
+        hh = np.asarray(inner.frequency_response(fs))
+        ref = independent_response(sp)(fs)
+        if np.max(np.abs(hh - ref)) > 1e-9:
+            return ([k, [complex(x) for x in hh[:3]]], [k, [complex(x) for x in ref[:3]]],
+                    "antenna %d: frequency response is not the Butterworth band-pass of its own band" % k)
+        got = run_use(outer, inner, use)
+        want = expected_use(sp, use, inner)
+        sc = use_scale(sp, use, inner)
+        if not _close(got, want, 1e-8 * sc):
+            return ([k, got if isinstance(got, str) else got[:4]], [k, want if isinstance(want, str) else want[:4]],
+                    "antenna %d built next to dipoles with neighbouring bands does not filter like the antenna built alone" % k)
     return None
 
 
@@ -1392,6 +1526,39 @@ def gen_input(run, kind):
     elif kind == "zerogain":
         spec, use, way = zero_gain_case(run)
         return {"spec": spec, "use": use, "way": way}
+    elif kind == "scale":
+        sp = rand_spec(run, rng.choice(["dip", "sysdip", "custom", "syscustom"]))
+        use = rand_use(run)
+        tiny = lambda: rng.choice([1e-8, 1e-9, 1e-12, 1e-100, 1e-140, 1e8, 1e100, 1e140])   # noqa: E731
+        ls = [tiny(), tiny(), tiny(), tiny()]
+        sp["z"] = [float(c) for c in _unit(sp["z"]) * ls[0]]
+        if "x" in sp:
+            sp["x"] = [float(c) for c in _unit(sp["x"]) * ls[1]]
+        use["form"] = rng.choice(FORMS)
+        use["direction"] = [float(c) for c in np.array(gvec(rng)) * ls[2]]
+        if "polarization" in use:
+            use["polarization"] = [float(c) for c in np.array(gvec(rng)) * ls[3]]
+            use["vt"] = rng.choice(["field", "voltage"])
+        for c in use.get("components", []):
+            c["pol"] = [float(v) for v in np.array(gvec(rng)) * tiny()]
+        return {"spec": sp, "use": use, "lengths": ls}
+    elif kind == "neighbours":
+        base = rand_spec(run, "dip")
+        base["cf"], base["bw"] = rng.choice([(300e6, 20e6), (500e6, 500e6), (rng.uniform(200e6, 600e6), rng.uniform(20e6, 150e6))])
+        ants = [base]
+        for _ in range(rng.choice([1, 2, 3])):
+            nb = rand_spec(run, rng.choice(["dip", "sysdip"]))
+            nb["cf"] = base["cf"] + rng.choice([-1, 1]) * rng.choice([0.1e6, 0.3e6, 0.4e6, 0.9e6, 0.05e6])
+            nb["bw"] = base["bw"] + rng.choice([0.0, 0.0, 0.2e6, -0.2e6])
+            ants.append(nb)
+        rng.shuffle(ants)
+        order = list(range(len(ants)))
+        rng.shuffle(order)
+        use = rand_use(run)
+        use.update(op=rng.choice(["respond", "receive1"]), vt=rng.choice(["field", "voltage"]), direction=gvec(rng),
+                   polarization=gvec(rng), form="array")
+        use.pop("components", None)
+        return {"antennas": ants, "check_order": order, "use": use, "freqs": [rng.uniform(50e6, 1.2e9) for _ in range(5)]}
     elif kind == "cgain":
         sp = rand_spec(run, rng.choice(["custom", "custom", "syscustom", "unit"]))
         sp["fresp"] = rng.choice([None, rng.uniform(1e8, 8e8)])      # Hermitian responses: filtered stays real
@@ -1431,7 +1598,7 @@ def gen_input(run, kind):
     return inp
 
 
-ORACLES = ["rotate", "linear", "factor", "rejects", "receive", "frame", "history", "history", "reorient", "reuse", "reuse", "zerogain", "zerogain", "cgain"]
+ORACLES = ["rotate", "linear", "factor", "rejects", "receive", "frame", "history", "history", "reorient", "reuse", "reuse", "zerogain", "zerogain", "cgain", "scale", "neighbours"]
 
 
 def search(run, deep):
@@ -1440,7 +1607,7 @@ def search(run, deep):
     for i in range(n):
         for kind in ORACLES:
             inp = gen_input(run, kind)
-            run.case(("oracle", kind, i, inp["spec"]["kind"] if "spec" in inp else inp["inputs"][0]["kind"]))
+            run.case(("oracle", kind, i, inp["spec"]["kind"] if "spec" in inp else (inp["inputs"][0]["kind"] if "inputs" in inp else "dipoles")))
             run.count("oracle_" + kind)
             res = oracle(kind, inp)
             if res is not None:
